@@ -156,6 +156,23 @@ def families(tier, seed):
     return fams
 
 
+def _twin_line_plane_parallel():
+    """mutant: parallel(Line, Plane) tests the direction against the normal with parallel instead of orthogonal"""
+    import sys as _sys
+    an = _sys.modules['Geometry3D.calc.angle']
+    orig = an.parallel
+
+    def f(a, b):
+        if isinstance(a, Line) and isinstance(b, Plane):
+            return a.dv.parallel(b.n)
+        return orig(a, b)
+    an.parallel = f
+    G.parallel = f
+
+
+TWINS = {'parallel(Line, Plane) confuses normal and plane': (r'^Line-Plane/kt/axis/function$', _twin_line_plane_parallel)}
+
+
 META = dict(
     title='angle / parallel / orthogonal',
     level_text=('Bounded symbolic model checking of the real angle/parallel/orthogonal code (functions and methods) for Line/Line, Line/Plane, '
